@@ -38,8 +38,88 @@ def area(spec, name):
     return AreaDefinition(name, name, name, spec["proj"], w, h, tuple(spec["extent"]))
 
 
+# ------------------------------------------------------------------ the .pyx source, run as Python
+def pyx_as_python(path):
+    """The text of _gradient_search.pyx with the C declarations removed, so that the SOURCE (which cannot be
+    recompiled here) can be executed and compared with the compiled module.  Purely syntactic; fail-closed."""
+    import re
+    out = []
+    lines = open(path).read().split("\n")
+    k = 0
+    while k < len(lines):
+        ln = lines[k]
+        t = ln.strip()
+        ind = ln[:len(ln) - len(ln.lstrip())]
+        k += 1
+        if t.startswith(("cimport ", "from libc", "np.import_array", "@cython", "ctypedef void")):
+            continue
+        if t.startswith("ctypedef fused"):
+            while k < len(lines) and lines[k].startswith((" ", "\t")) and lines[k].strip():
+                k += 1
+            continue
+        if t.startswith("ctypedef "):
+            continue
+        if re.match(r"^c?p?def\s", t) and "(" in t and not t.startswith("def ") and "=" not in t.split("(")[0]:
+            sig = t
+            while sig.count("(") > sig.count(")") or not sig.rstrip().endswith(":"):
+                sig += " " + lines[k].strip()
+                k += 1
+            m = re.match(r"^c?p?def\s+(?:inline\s+)?(?:[\w\[\], :.]+?\s+)?(\w+)\s*\((.*)\)\s*(?:noexcept)?\s*(?:nogil)?\s*:\s*$", sig)
+            if not m:
+                raise ValueError("cannot read cython signature: " + sig)
+            params, depth, cur = [], 0, ""
+            for ch in m.group(2):
+                depth += ch in "[("
+                depth -= ch in "])"
+                if ch == "," and depth == 0:
+                    params.append(cur)
+                    cur = ""
+                else:
+                    cur += ch
+            params.append(cur)
+            names = []
+            for prm in params:
+                mm = re.search(r"(\w+)\s*(=\s*[^=]+)?$", prm.strip())
+                names.append(mm.group(1) + (mm.group(2) or ""))
+            out.append(ind + "def %s(%s):" % (m.group(1), ", ".join(names)))
+            continue
+        if t.startswith("cdef "):
+            if "=" in t:
+                left, right = t.split("=", 1)
+                out.append(ind + re.findall(r"\w+", left)[-1] + " =" + right)
+            continue
+        ln = re.sub(r"<\s*\w+\s*>", "", ln)
+        ln = re.sub(r"(\w+)\[float_index\]\(", r"\1(", ln)
+        if t.startswith("with nogil"):
+            ln = ind + "if True:"
+        out.append(ln)
+    return "\n".join(out)
+
+
+def load_pyx_source():
+    import math
+    import os
+
+    def c_int(x):      # the C cast (int)x on x86-64
+        x = float(x)
+        if x != x or abs(x) >= 2.0 ** 31:
+            return -2 ** 31
+        return math.trunc(x)
+    ns = {"isinf": math.isinf, "fabs": math.fabs, "int": c_int, "data_type": None, "double": None, "__name__": "pyx_source"}
+    path = os.path.join(os.path.dirname(G.__file__), "_gradient_search.pyx")
+    exec(compile(pyx_as_python(path), path, "exec"), ns)
+    return ns
+
+
 # ------------------------------------------------------------------ the Cython kernels, called directly
 res = []
+pyx = None
+pyx_error = None
+if req.get("direct"):
+    try:
+        pyx = load_pyx_source()
+    except Exception as e:  # noqa: BLE001
+        pyx_error = err(e)
 for c in req.get("direct", []):
     try:
         s = (c["nl"], c["np"])
@@ -50,6 +130,16 @@ for c in req.get("direct", []):
             d = arr(c["data"], (1,) + s)
             r["nn"] = flat(one_step_gradient_search(d, *a, method="nn"))
             r["bil"] = flat(one_step_gradient_search(d, *a, method="bilinear"))
+        if pyx is not None:
+            try:
+                r["src"] = {"idx": [flat(v) for v in pyx["one_step_gradient_indices"](*a)]}
+                if "data" in c:
+                    r["src"]["nn"] = flat(pyx["one_step_gradient_search"](d, *a, method="nn"))
+                    r["src"]["bil"] = flat(pyx["one_step_gradient_search"](d, *a, method="bilinear"))
+            except Exception as e:  # noqa: BLE001
+                r["src"] = err(e)
+        else:
+            r["src"] = pyx_error
         res.append(r)
     except Exception as e:  # noqa: BLE001
         res.append(err(e))
